@@ -47,6 +47,12 @@ func (c *constExpr) Exit(node *Node) {
 					param = nil
 				case *IntegerNode:
 					param = a.Value
+					// The checker may have retyped the literal to the
+					// parameter's numeric kind (FloatFn(1)).
+					if t := a.Type(); t != nil && t.Kind() != reflect.Int && t.Kind() != reflect.Interface &&
+						reflect.TypeOf(a.Value).ConvertibleTo(t) {
+						param = reflect.ValueOf(a.Value).Convert(t).Interface()
+					}
 				case *FloatNode:
 					param = a.Value
 				case *BoolNode:
